@@ -34,6 +34,7 @@ func classify(o *Obs, c Case, r *Result) {
 		}
 	}
 	o.Class("sched-" + c.Sched.Kind)
+	o.ClassIf(c.Family != "", "family-"+c.Family)
 	o.Class(fmt.Sprintf("procs-%d", len(c.Progs)))
 	o.ClassIf(r.Overlap, "ops-overlap")
 	o.ClassIf(r.OverlapCommit, "overlap-with-commit-or-compaction")
